@@ -77,7 +77,7 @@ func writerFingerprint(w *proto.Writer, pending []byte) uint64 {
 
 // C14 — the vectored writer emits exactly what was chained, once, in order.
 func C14(c *vk.Ctx) {
-	c.Rule("explicit-state search over all operation sequences of length <= n (quick 6, thorough 7) over the 12-operation alphabet {ChainBuffer appending 0/1/3/70 bytes, ChainWrite of a 0/1/5-byte slice, Flush to a writer that accepts everything / fails after 0, 1, 4 bytes / reports a short write} x initial buffer capacity {0, 64}; every byte is position-unique; reference model = the byte string pending since the last flush; after every Flush the bytes delivered must be exactly pending (a prefix of it when the writer failed) and nothing delivered earlier may appear again. Plus path equivalence WriteBlock+Flush = EncodeBlock on a column corpus (twelve columns incl. strings of 1 KiB / 4 KiB / 70 KB followed by rows of other lengths, bare, in an array and as dictionary values, and the stateful LowCardinality / Array(LowCardinality) / Map(., LowCardinality) / JSON, with 3 rows and with zero rows). states = distinct private writer states (reflect fingerprint incl. buffer length, offset, vector shape); transitions = operations executed.")
+	c.Rule("explicit-state search over all operation sequences of length <= n (quick 6, thorough 7) over the 12-operation alphabet {ChainBuffer appending 0/1/3/70 bytes, ChainWrite of a 0/1/5-byte slice, Flush to a writer that accepts everything / fails after 0, 1, 4 bytes / reports a short write} x initial buffer capacity {0, 64}; every byte is position-unique; reference model = the byte string pending since the last flush; after every Flush the bytes delivered must be exactly pending (a prefix of it when the writer failed) and nothing delivered earlier may appear again. Plus path equivalence WriteBlock+Flush = EncodeBlock on a column corpus (fifteen columns incl. containers with rows whose LowCardinality / JSON element column is empty, strings of 1 KiB / 4 KiB / 70 KB followed by rows of other lengths, bare, in an array and as dictionary values, and the stateful LowCardinality / Array(LowCardinality) / Map(., LowCardinality) / JSON, with 3 rows and with zero rows). states = distinct private writer states (reflect fingerprint incl. buffer length, offset, vector shape); transitions = operations executed.")
 	depth := 6
 	if !c.Quick() {
 		depth = 7
@@ -225,6 +225,16 @@ func C14(c *vk.Ctx) {
 				proto.InputColumn{Name: "lc", Data: lc}, proto.InputColumn{Name: "arr", Data: arr}, proto.InputColumn{Name: "nu", Data: nu},
 				proto.InputColumn{Name: "alc", Data: alc}, proto.InputColumn{Name: "mlc", Data: mlc}, proto.InputColumn{Name: "js", Data: js},
 				proto.InputColumn{Name: "big", Data: big}, proto.InputColumn{Name: "bigArr", Data: bigArr}, proto.InputColumn{Name: "bigLC", Data: bigLC})
+			// containers that have rows while the stateful column inside them holds nothing
+			alcE := proto.NewArray[string](proto.NewLowCardinality[string](new(proto.ColStr)))
+			alcE.AppendArr([][]string{{}, {}, {}})
+			mlcE := proto.NewMap[string, string](proto.NewLowCardinality[string](new(proto.ColStr)), new(proto.ColStr))
+			mlcE.AppendKV(nil)
+			mlcE.AppendKV(nil)
+			mlcE.AppendKV(nil)
+			ajsE := proto.NewArray[string](new(proto.ColJSONStr))
+			ajsE.AppendArr([][]string{{}, {}, {}})
+			input = append(input, proto.InputColumn{Name: "alcE", Data: alcE}, proto.InputColumn{Name: "mlcE", Data: mlcE}, proto.InputColumn{Name: "ajsE", Data: ajsE})
 			if rows == 0 {
 				for _, in := range input {
 					in.Data.(proto.Resettable).Reset()
